@@ -246,3 +246,9 @@ def check(ctx):
     tp = operand_term(pi, tpush[0].args[1])
     ctx.check(tp[0] == "agg" and tp[3] == "T", "R02.5", "parse_into|pushed-token", "T(token) is pushed",
               "unexpected tree-stack push in the T arm", where(pi, tpush[0].line), nontrivial=False)
+
+    # ---------------------------------------------------------------- R02.6
+    # the derivation is over the input's *significant* tokens: which tokens are significant is decided by the
+    # skip classification (C17 R17.1/R17.2), re-evaluated here
+    from . import c17
+    c17.check(ctx)
